@@ -343,10 +343,7 @@ impl CatalogPersistence {
                     existing_schema.add_table(table.clone());
                 }
             } else {
-                bail!(
-                    "schema '{}' not found in catalog during deserialization",
-                    schema.name()
-                );
+                catalog.restore_schema(schema);
             }
         }
 
